@@ -66,6 +66,9 @@ func convCompFuncV1ToV2(cf *ugo.CompiledFunction, opWidth []int) error {
 			continue
 		}
 
+		if int(op) >= len(opWidth) {
+			return fmt.Errorf("unknown opcode %d at %d", op, i)
+		}
 		w := opWidth[op]
 		i += 1 + w
 	}
@@ -73,6 +76,34 @@ func convCompFuncV1ToV2(cf *ugo.CompiledFunction, opWidth []int) error {
 	if !hasJump {
 		return nil
 	}
+
+	// Widening an operand moves every later instruction, so jump and try
+	// targets have to be relocated. Map each v1 instruction offset to its v2
+	// offset first; malformed streams are rejected here.
+	newPos := make([]int, len(cf.Instructions)+1)
+	for i := range newPos {
+		newPos[i] = -1
+	}
+	var delta int
+	for i := 0; i < len(cf.Instructions); {
+		op := cf.Instructions[i]
+		if int(op) >= len(opWidth) || int(op) >= len(opv1.OpcodeOperands) {
+			return fmt.Errorf("unknown opcode %d at %d", op, i)
+		}
+		w := opWidth[op]
+		if i+1+w > len(cf.Instructions) {
+			return fmt.Errorf("truncated instruction at %d", i)
+		}
+		newPos[i] = i + delta
+		switch op {
+		case opv1.OpJump, opv1.OpJumpFalsy, opv1.OpAndJump, opv1.OpOrJump:
+			delta += 2
+		case opv1.OpSetupTry:
+			delta += 4
+		}
+		i += 1 + w
+	}
+	newPos[len(cf.Instructions)] = len(cf.Instructions) + delta
 
 	var newInsts []byte
 	newSrcMap := make(map[int]int, len(cf.SourceMap))
@@ -96,6 +127,12 @@ func convCompFuncV1ToV2(cf *ugo.CompiledFunction, opWidth []int) error {
 				cf.Instructions[i+1:],
 				operands[:0],
 			)
+			for j, target := range operands {
+				// targets that are not instruction boundaries are left as is
+				if target < len(newPos) && newPos[target] >= 0 {
+					operands[j] = newPos[target]
+				}
+			}
 
 			var err error
 			instBuf, err = ugo.MakeInstruction(instBuf[:0], op, operands...)
